@@ -39,6 +39,10 @@ CONCAT_FORMATS = ("xyz", "extxyz", "pdb", "mol2", "sdf", "gromacs")
 MATERIALIZERS = {"list", "tuple", "sorted", "len", "reversed", "set", "frozenset", "sum", "max", "min", "dict"}
 EXPLANATION += ' (R10) in the PDB frame parser only END / ENDMDL switch off the missing-END warning (the path condition of the flag assignment is evaluated for every PDB record name).'
 TECHNIQUE += '; finite-domain evaluation of the terminator flag'
+# --- metadata added for batch 7
+TECHNIQUE += '; who-may-swallow rule for StopIteration inside frame parsers; look-ahead transparency on a model LineIterator'
+EXPLANATION += ' Added: (R11) the look-ahead of every frame loop (blank-line skipping, push-back) leaves the input unchanged, evaluated on a model LineIterator; (R12) a PDB CONECT record naming an atom outside the frame raises (no membership guard around the bond store); (R13) in the frame parsers of the trajectory formats a `try` whose handler accepts StopIteration without raising covers record-head reads only -- never a call that is handed the iterator (one frozen exception: the FCHK field reader, whose dropped field raises downstream).'
+# --- end metadata batch 7
 
 
 def run(ctx):
